@@ -3,8 +3,8 @@
 WT=$1; M=$2
 cd $WT || exit 2
 git checkout -q -- . 2>/dev/null
-DEMO_DIR=$(grep -oE '(storage|pebble|regattaserver|replication|util|cmd)[A-Za-z0-9_/]*' $M/DEMO.txt | head -1)
-RUNCMD=$(grep -E "go test" $M/DEMO.txt | head -1 | sed 's/^[^g]*//; s/`//g')
+RUNCMD=$(grep -E "go test" $M/DEMO.txt | head -1 | sed 's/^.*go test/go test/; s/`//g')
+DEMO_DIR=$(echo "$RUNCMD" | grep -oE ' \./[A-Za-z0-9_/]+' | tail -1 | sed 's/^ \.\///')
 [ -z "$DEMO_DIR" ] && { echo "no demo dir found in DEMO.txt"; exit 2; }
 cp $M/demo_test.go $DEMO_DIR/zz_demo_test.go
 echo "demo dir: $DEMO_DIR ; cmd: $RUNCMD"
